@@ -3,6 +3,8 @@
         -> F <result> | S <result> | R <names passed to resolve, sorted, unique> | G <core><wf><noalias><rbw><core2>
      (sym (prog stmt...))
         -> the Symbols of every frame in enter_frame order
+     (symf X (args e...) (pre stmt...) (body stmt...))
+        -> the Symbols of every frame of  pre ++ {% set X | f(args) %}body{% endset %}
      (und (globals g...) (prog stmt...))
         -> the model of meta.find_undeclared_variables (sorted, unique) | nocall flag
      (ref K texpr)   K = e|i|m|f   -> the model of meta.find_referenced_templates for one node
@@ -134,6 +136,9 @@ let () =
       | L [A "sym"; L (A "prog" :: p)] ->
           let prog = List.map stmt p in
           let fs = frames_of ord_id prog in
+          print_endline (String.concat " / " (List.map (function s :: _ -> show_sym s | [] -> "?") fs))
+      | L [A "symf"; x; L (A "args" :: es); L (A "pre" :: pre); L (A "body" :: body)] ->
+          let fs = frames_setblock_f ord_id (List.map stmt pre) (nm x) (List.map expr es) (List.map stmt body) in
           print_endline (String.concat " / " (List.map (function s :: _ -> show_sym s | [] -> "?") fs))
       | L [A "und"; L (A "globals" :: gs); L (A "prog" :: p)] ->
           let prog = List.map stmt p in
